@@ -26,7 +26,9 @@ theorem C09_http_connects_to_the_address (idna : Bytes → Option Bytes) (ua : B
   · cases h
   · cases h
 
-/-- Building a client cannot panic, and the only error is `InvalidInput` (a host text the URL parser rejects). -/
+/-- Building a client cannot panic — the one panic site of the code it runs, `parse_ipv4addr`'s `expect("a non-empty list of
+numbers")`, is a crash branch of the model and is not reached (`Lemmas/Http.lean: parseIpv4_no_crash`) —, and the only
+error is `InvalidInput` (a host text the URL parser rejects). -/
 theorem C09_http_new_total (idna : Bytes → Option Bytes) (ua : Bytes) (address : SocketAddr)
     (ts : Option Settings.Timeout) (hs : HttpSettings) :
     Http.new idna ua address ts hs ≠ .crash ∧ ∀ k, Http.new idna ua address ts hs = .err k → k = .invalidInput := by
@@ -71,7 +73,7 @@ theorem C09_http_host_header_v6 (idna : Bytes → Option Bytes) (s0 s1 s2 s3 s4 
     let host := Host.ipv6 [s0.toNat, s1.toNat, s2.toNat, s3.toNat, s4.toNat, s5.toNat, s6.toNat, s7.toNat]
     Ureq.hostHeader ⟨proto, [], none, host, if port = proto.defaultPort then none else some port, [47], none, none⟩
       = host.text ++ (if port = proto.defaultPort then [] else 58 :: natDec port)
-    ∧ parseHost idna host.text = some host := by
+    ∧ parseHost idna host.text = .ok host := by
   refine ⟨?_, parseHost_writeIpv6 idna s0 s1 s2 s3 s4 s5 s6 s7⟩
   simp only [Ureq.hostHeader]
   by_cases hpd : port = proto.defaultPort <;> simp [hpd]
@@ -285,7 +287,20 @@ theorem C09_http_from_url (idna : Bytes → Option Bytes) (ua : Bytes) (lookup :
     simp only [hd]
     rcases hl with hl | hl <;> rw [hl]
 
--- non-vacuity: a plain name, plain segments, and what the model computes on concrete, non-trivial inputs
+-- non-vacuity: clients are built (IPv6 address and odd host name, IPv4-mapped address, `from_url` with a domain that the
+-- resolver knows), a plain name, plain segments
+example :
+    (Http.new (fun _ => none) (asciiBytes "gamedig/0") ⟨.v6 0x2001 0xdb8 0 0 0 0 0 1, 3001⟩ none ⟨.http, some (asciiBytes "Eco.Example"), []⟩).toOption.map
+      (fun c => (c.address.text, c.agent.resolver (asciiBytes "anything:80")))
+      = some (asciiBytes "http://eco.example:3001/", [⟨.v6 0x2001 0xdb8 0 0 0 0 0 1, 3001⟩])
+    ∧ (Http.new (fun _ => none) [] ⟨.v6 0 0 0 0 0 0xffff 0x7f00 1, 80⟩ none {}).toOption.map (fun c => (c.address.text, c.address.host))
+      = some (asciiBytes "http://[::ffff:7f00:1]/", .ipv6 [0, 0, 0, 0, 0, 0xffff, 0x7f00, 1])
+    ∧ (Http.fromUrl (fun _ => none) [] (fun d p => if d == asciiBytes "example.org" then some [⟨.v4 10 0 0 7, p⟩, ⟨.v4 10 0 0 8, p⟩] else none) false
+        ⟨.https, [], none, .domain (asciiBytes "example.org"), none, asciiBytes "/ignored", none, none⟩ none none).toOption.map
+      (fun c => (c.address.text, c.agent.resolver []))
+      = some (asciiBytes "http://example.org:443/", [⟨.v4 10 0 0 7, 443⟩]) := by
+  decide +kernel
+
 example : PlainName (asciiBytes "Play.Eco-1.example") := ⟨by decide, by decide, by decide, by decide⟩
 example : PlainSegment (asciiBytes "frontpage") := ⟨by decide, by decide, by decide⟩
 example : PlainSegment (asciiBytes "%2e%2e") → False := fun h => absurd h.notDoubleDot (by decide)
